@@ -150,11 +150,11 @@ def stepLine (d : DS) (line : String) : DS × String :=
     | _, _, _, _, _, _, _ => (d, "bad-op")
   | "tx" :: sl :: osr :: rest =>
     -- a registry message delivered as a signed transaction in a block of its own, then that block's end blocker;
-    -- `nop`: the transaction was refused by the ante handler (not signed by the oracle account)
+    -- `nop`: the transaction was refused by the ante handler (not signed by the oracle account, fee not payable)
     match natList? sl, bool? osr with
     | some sl, some osr =>
       let r : Option (State × String) :=
-        if rest == ["nop"] then some (s, "err:unauthorized")
+        if rest == ["nop"] then some (s, "err:refused")
         else match parseOp rest with
           | some (.bond o b e a dd) => some ((step s (.bond o b e a dd)).1, showOut (step s (.bond o b e a dd)).2)
           | some (.addDelegate o a dd) => some ((step s (.addDelegate o a dd)).1, showOut (step s (.addDelegate o a dd)).2)
